@@ -416,15 +416,19 @@ Lemma red_mask_perm n l l' :
   red_mask n (AxList l) = red_mask n (AxList l').
 Proof.
   intros HP. cbn [red_mask]. apply map_ext. intros j.
-  rewrite <- !existsb_map_eqb. now apply existsb_perm.
+  rewrite <- (existsb_map_eqb j (np_norm (Z.of_nat n)) l), <- (existsb_map_eqb j (np_norm (Z.of_nat n)) l').
+  now apply existsb_perm.
 Qed.
+
+Lemma filter_len_le {X} (p : X -> bool) l : (length (filter p l) <= length l)%nat.
+Proof. induction l as [|x l IH]; cbn; [lia | destruct (p x); cbn; lia]. Qed.
 
 Lemma count_true_full m : count_true m = length m -> m = repeat true (length m).
 Proof.
   unfold count_true. induction m as [|b m IH]; cbn; [reflexivity|].
   destruct b; cbn; intros H.
   - f_equal. apply IH. lia.
-  - pose proof (filter_length_le (fun b => b) m). lia.
+  - pose proof (filter_len_le (fun b : bool => b) m). lia.
 Qed.
 
 (* a duplicate-free list naming ndim axes names all of them *)
@@ -551,6 +555,12 @@ Proof. induction l; cbn; congruence. Qed.
 Lemma lex_enum_1 n : lex_enum [n] = map (fun x => [x]) (zrange n).
 Proof. cbn [lex_enum map]. apply flat_map_singleton. Qed.
 
+Lemma inb_nth_nonneg idx s : inb idx s -> forall p, (p < length idx)%nat -> 0 <= nth p idx 0.
+Proof.
+  induction 1 as [|x n is s Hx H IH]; intros p Hp; cbn [length] in Hp; [lia|].
+  destruct p; cbn [nth]; [lia | apply IH; lia].
+Qed.
+
 Theorem accumulate_at_spec (a : list Z -> A) s axis idx :
   0 <= axis < zlen s -> inb idx s ->
   accumulate_at f a axis idx = accumulate_spec f a (zlen s) axis idx.
@@ -560,9 +570,7 @@ Proof.
   assert (En : np_norm (Z.of_nat (length s)) axis = axis) by (unfold np_norm; destruct (Z.ltb_spec axis 0); lia).
   rewrite En. set (p := Z.to_nat axis).
   assert (Hp : (p < length idx)%nat) by lia.
-  assert (Hv : 1 <= nth p idx 0 + 1).
-  { clear - Hi Hp. revert p Hp. induction Hi as [|x n is s Hx H IH]; intros p Hp; cbn [length] in Hp; [lia|].
-    destruct p; cbn [nth]; [lia | apply IH; lia]. }
+  assert (Hv : 1 <= nth p idx 0 + 1) by (pose proof (inb_nth_nonneg _ _ Hi p Hp); lia).
   rewrite (acc_slices_onehot axis idx 0 p Hp) by lia.
   rewrite (flat_slice_spec A a _ _ _ (wf_onehot idx p _ Hp Hv)).
   unfold spec_elems. rewrite reduced_extents_onehot by assumption.
@@ -635,7 +643,7 @@ Proof.
   - rewrite (normalize_axis1_ok _ _ Hok) in Hn. injection Hn as <-. cbn [mean_divisor].
     replace (red_mask (length s) (AxInt k)) with (red_mask (length s) (AxList [k]))
       by (cbn [red_mask]; apply map_ext; intros j; cbn [existsb]; apply orb_false_r).
-    rewrite <- L; [cbn; ring | cbn; now rewrite Hok | reflexivity].
+    rewrite <- L; [cbn [map fold_left]; lia | cbn; now rewrite Hok | reflexivity].
   - apply andb_prop in Hok as [Hr Hd]. rewrite (normalize_axes_ok _ _ Hr) in Hn. injection Hn as <-.
     cbn [mean_divisor]. now apply L.
 Qed.
